@@ -145,28 +145,42 @@ def run(rep, tier):
     vec, marker, rdone = wd / "vectors.ndjson", wd / "vectors.done", wd / "random.done"
     ev_vec, ev_rand = wd / "ev_vectors.ndjson", wd / "ev_random.ndjson"
     nrand = 300 if quick else 3000
+    ecfg = cfg.replace(".cfg", "_emit.cfg")
+    # 1. the input class as vectors (EmitSpec: same module and constants as the exploration below, ~4 s)
+    r0 = model_check("C16_LinArith", ecfg, wd=wd / "emit", workers=1, env={"VECTOR_FILE": vec}, timeout=3600)
+    require(r0.ok and vec.exists(), "C16_LinArith (EmitSpec) did not emit vectors")
+    rep.notes["vectors"] = sum(1 for _ in open(vec))
+    marker.write_text("ok")
     ex = ThreadPoolExecutor(max_workers=3)
-    # the driver (one process: importing the int/real theories costs ~17 s) runs the random systems while TLC explores S,
-    # then replays the TLC vectors as soon as the marker says they are complete
+    # 2. the driver (one process: importing the int/real theories costs ~17 s; random systems, then the vectors) runs
+    #    while TLC explores S over the same class
     fut = ex.submit(run_driver, "c16", ["all", vec, marker, ev_vec, ev_rand, nrand, seed(), tier, rdone], timeout=7200)
-    ok = False
-    try:
-        r = model_check("C16_LinArith", cfg, wd=wd / "mc", workers=3, env={"VECTOR_FILE": vec}, timeout=7200)
-        rep.add_mc("C16_LinArith", r, cfg)
-        if r.violated:
-            rep.design_violation("C16_LinArith", r)
-            return
-        require(vec.exists(), "C16_LinArith did not emit vectors")
-        ok = True
-    finally:
-        marker.write_text("ok" if ok else "abort")
-        if not ok:
-            try:
+    def trace_random():
+        t0 = time.time()
+        while not rdone.exists():
+            if fut.done():
                 fut.result()
+            require(time.time() - t0 < 7200, "C16: random driver did not finish")
+            time.sleep(0.2)
+        return _validate("random", ev_rand, wd, nchunks=1 if quick else 2)
+    fr = ex.submit(trace_random)
+    try:
+        r = model_check("C16_LinArith", cfg, wd=wd / "mc", workers=3, timeout=7200)
+    except BaseException:
+        for f in (fut, fr):
+            try:
+                f.result()
             except Exception:
                 pass
+        raise
+    rep.add_mc("C16_LinArith", r, cfg)
+    if r.violated:
+        rep.design_violation("C16_LinArith", r)
+        fut.result()
+        fr.result()
+        return
+    require(r.distinct >= 4 * rep.notes["vectors"], "C16_LinArith explored fewer states than the emitted class needs")
     rep.exhaustive = True
-    rep.notes["vectors"] = sum(1 for _ in open(vec))
 
     def mutants():
         # oracle non-vacuity: a dark shadow without Pugh's correction term must violate DarkSound
@@ -181,15 +195,7 @@ def run(rep, tier):
                         [("C16_LinCore.tla", "(d \\div g) * L[k] + (c \\div g) * U[k]]", "(c \\div g) * L[k] + (d \\div g) * U[k]]")],
                         INVS + ["TypeOK"], wd=wd, workers=1)
 
-    def trace_random():
-        t0 = time.time()
-        while not rdone.exists():
-            if fut.done():
-                fut.result()
-            require(time.time() - t0 < 7200, "C16: random driver did not finish")
-            time.sleep(0.2)
-        return _validate("random", ev_rand, wd, nchunks=1 if quick else 2)
-    fm, fr = ex.submit(mutants), ex.submit(trace_random)
+    fm = ex.submit(mutants)
     fut.result()
     res = {"vectors": _validate("vectors", ev_vec, wd, nchunks=2 if quick else 3), "random": fr.result()}
     fm.result()
